@@ -1,17 +1,29 @@
-// Package vcontext: context on top of vchan (prototype).
+// Package vcontext: context on top of vchan and the virtual clock.
 package vcontext
 
 import (
 	"errors"
+	"time"
 
 	"verif/shim/vchan"
+	"verif/shim/vtime"
 )
 
 var Canceled = errors.New("context canceled")
 
+type deadlineErr struct{}
+
+func (deadlineErr) Error() string   { return "context deadline exceeded" }
+func (deadlineErr) Timeout() bool   { return true }
+func (deadlineErr) Temporary() bool { return true }
+
+var DeadlineExceeded error = deadlineErr{}
+
 type Context interface {
 	Done() *vchan.Chan[struct{}]
 	Err() error
+	Deadline() (time.Time, bool)
+	Value(key any) any
 }
 
 type bg struct{}
@@ -23,14 +35,25 @@ func (bg) Done() *vchan.Chan[struct{}] { return nil }
 func (bg) Err() error { return nil }
 
 //go:norace
+func (bg) Deadline() (time.Time, bool) { return time.Time{}, false }
+
+//go:norace
+func (bg) Value(any) any { return nil }
+
+//go:norace
 func Background() Context { return bg{} }
 
 //go:norace
 func TODO() Context { return bg{} }
 
 type cancelCtx struct {
-	done *vchan.Chan[struct{}]
-	err  error
+	parent   Context
+	done     *vchan.Chan[struct{}]
+	err      error
+	deadline time.Time
+	hasDL    bool
+	children []*cancelCtx
+	key, val any
 }
 
 //go:norace
@@ -39,15 +62,72 @@ func (c *cancelCtx) Done() *vchan.Chan[struct{}] { return c.done }
 //go:norace
 func (c *cancelCtx) Err() error { return c.err }
 
+//go:norace
+func (c *cancelCtx) Deadline() (time.Time, bool) {
+	if c.hasDL {
+		return c.deadline, true
+	}
+	return c.parent.Deadline()
+}
+
+//go:norace
+func (c *cancelCtx) Value(key any) any {
+	if c.key != nil && c.key == key {
+		return c.val
+	}
+	return c.parent.Value(key)
+}
+
+//go:norace
+func (c *cancelCtx) cancel(err error) {
+	if c.err != nil {
+		return
+	}
+	c.err = err
+	vchan.Close(c.done)
+	for _, ch := range c.children {
+		ch.cancel(err)
+	}
+}
+
 type CancelFunc func()
 
 //go:norace
-func WithCancel(parent Context) (Context, CancelFunc) {
-	c := &cancelCtx{done: vchan.Make[struct{}](0)}
-	return c, func() {
-		if c.err == nil {
-			c.err = Canceled
+func newCtx(parent Context) *cancelCtx {
+	c := &cancelCtx{parent: parent, done: vchan.Make[struct{}](0)}
+	if p, ok := parent.(*cancelCtx); ok {
+		if p.err != nil {
+			c.err = p.err
 			vchan.Close(c.done)
+		} else {
+			p.children = append(p.children, c)
 		}
 	}
+	return c
+}
+
+//go:norace
+func WithCancel(parent Context) (Context, CancelFunc) {
+	c := newCtx(parent)
+	return c, func() { c.cancel(Canceled) }
+}
+
+//go:norace
+func WithTimeout(parent Context, d time.Duration) (Context, CancelFunc) {
+	c := newCtx(parent)
+	c.deadline, c.hasDL = vtime.Now().Add(d), true
+	t := vtime.AfterFunc(d, func() { c.cancel(DeadlineExceeded) })
+	return c, func() { t.Stop(); c.cancel(Canceled) }
+}
+
+//go:norace
+func WithDeadline(parent Context, at time.Time) (Context, CancelFunc) {
+	return WithTimeout(parent, vtime.Until(at))
+}
+
+//go:norace
+func WithValue(parent Context, key, val any) Context {
+	c := newCtx(parent)
+	c.key, c.val = key, val
+	return c
 }
